@@ -26,9 +26,14 @@ def gen(seed, tier):
         n = rng.choice([3, 5, 8, 12])
         pool = (1, 2, -3, 7, 0)
         a = H.gen_tree(rng, d + 1, n, pool, dflt)
-        b = H.gen_tree(rng, d + 1, n, pool, dflt)
         kind = "owned" if (d >= 1 and rng.random() < 0.5) else "free"
-        yield {"prop": PROP, "op": op, "d": d, "dflt": dflt, "a": a, "b": b, "kind": kind}
+        case = {"prop": PROP, "op": op, "d": d, "dflt": dflt, "kind": kind}
+        # the operands may have different defaults: the default delivered for an absent side is that side's
+        if rng.random() < 0.3:
+            case["dfltB"] = rng.choice([v for v in (0, 7, -1) if v != dflt])
+        b = H.gen_tree(rng, d + 1, n, pool, case.get("dfltB", dflt))
+        case.update({"a": a, "b": b})
+        yield case
     # uncompressed-format operands: every coordinate of the shape is presented
     small = list(H.all_leaf_fibers(3, [0, 1]))
     k = 0
@@ -123,6 +128,8 @@ def _run_tuple(case):
             z = (fa | fb) if opk == "or" else (fa ^ fb)
             rows = [[cj(c), m, _ref(fa, pa, dflt), _ref(fb, pb, dflt)] for c, (m, pa, pb) in z]
         case["impl"] = rows
+        if _has_foreign(rows):
+            side["delivered_payloads_are_stored_or_fresh_default"] = False
     except Exception as e:
         case["impl"] = []
         side["no_exception:" + H.err_class(e)] = False
@@ -131,14 +138,17 @@ def _run_tuple(case):
     return case
 
 
-def _ref(fiber, p, dflt):
-    """storage position of a delivered payload, -1 for a fresh default, -2 for anything else"""
+def _ref(fiber, p, dflt, leaf=None):
+    """storage position of a delivered payload, -1 for a fresh default (of the right kind for the level:
+    a boxed `dflt` at a leaf rank, an element-less fiber above), -2 for anything else"""
     i = H.pos_of(fiber.payloads, p)
     if i >= 0:
         return i
     Fiber, Payload = H.ft().Fiber, H.ft().Payload
     if isinstance(p, Fiber):
-        return -1 if len(p.coords) == 0 else -2
+        return -1 if (len(p.coords) == 0 and leaf is not True) else -2
+    if leaf is False:
+        return -2
     if isinstance(p, Payload) and p.value == dflt:
         return -1
     return -2
@@ -146,6 +156,16 @@ def _ref(fiber, p, dflt):
 
 def _ranks(t):
     return [[id(f) for f in r.getFibers()] for r in t.ranks]
+
+
+def _has_foreign(rows):
+    """does any delivered payload classify as -2 (neither the operand's stored payload nor a fresh default
+    of the absent side)?"""
+    def walk(x):
+        if isinstance(x, list):
+            return any(walk(y) for y in x)
+        return x == -2
+    return any(walk(r[1:]) for r in rows)
 
 
 def _run_nary(case):
@@ -176,6 +196,8 @@ def _run_nary(case):
         else:
             rows = [[c, get(ps)[0], [_ref(f, p, dflt) for f, p in zip(fibers, get(ps)[1:])]] for c, ps in ft.Fiber.union(*fibers)]
         case["impl"] = rows
+        if _has_foreign(rows):
+            side["delivered_payloads_are_stored_or_fresh_default"] = False
     except Exception as e:
         case["impl"] = []
         side["no_exception:" + H.err_class(e)] = False
@@ -193,8 +215,12 @@ def run(case):
     if case["op"] == "tuple":
         return _run_tuple(case)
     d, dflt, op = case["d"], case["dflt"], case["op"]
+    dfltB = case.get("dfltB", dflt)
+    # an unowned fiber of depth >= 2 that holds no element cannot know that its default is a fiber (it
+    # guesses a boxed scalar): the kind of the fresh default is enforced for leaf ranks and tensor operands
+    leaf = True if d == 0 else (False if case["kind"] == "owned" else None)
     fa = H.build_fiber(case["a"], d + 1, dflt)
-    fb = H.build_fiber(case["b"], d + 1, dflt)
+    fb = H.build_fiber(case["b"], d + 1, dfltB)
     tensors = []
     if case["kind"] == "fmt" and case.get("own"):
         def own(tree, fmt, lo, hi):
@@ -214,20 +240,22 @@ def run(case):
     if case["kind"] == "owned":
         ids = [f"R{d - i}" for i in range(d + 1)]
         ta = ft.Tensor.fromFiber(rank_ids=ids, fiber=fa, default=dflt)
-        tb = ft.Tensor.fromFiber(rank_ids=ids, fiber=fb, default=dflt)
+        tb = ft.Tensor.fromFiber(rank_ids=ids, fiber=fb, default=dfltB)
         tensors = [ta, tb]
         fa, fb = ta.getRoot(), tb.getRoot()
     before = (H.snapshot(fa), H.snapshot(fb), [_ranks(t) for t in tensors])
     side = {}
     try:
         if op == "and":
-            rows = [[c, _ref(fa, pa, dflt), _ref(fb, pb, dflt)] for c, (pa, pb) in fa & fb]
+            rows = [[c, _ref(fa, pa, dflt, leaf), _ref(fb, pb, dfltB, leaf)] for c, (pa, pb) in fa & fb]
         elif op == "sub":
-            rows = [[c, _ref(fa, pa, dflt)] for c, pa in fa - fb]
+            rows = [[c, _ref(fa, pa, dflt, leaf)] for c, pa in fa - fb]
         else:
             z = (fa | fb) if op == "or" else (fa ^ fb)
-            rows = [[c, m, _ref(fa, pa, dflt), _ref(fb, pb, dflt)] for c, (m, pa, pb) in z]
+            rows = [[c, m, _ref(fa, pa, dflt, leaf), _ref(fb, pb, dfltB, leaf)] for c, (m, pa, pb) in z]
         case["impl"] = rows
+        if _has_foreign(rows):
+            side["delivered_payloads_are_stored_or_fresh_default"] = False
     except Exception as e:  # a crash on a legal input is an observation
         case["impl"] = []
         case["implerr"] = H.err_class(e)
